@@ -84,7 +84,12 @@ class Renderer:
         elif t == 'neg' or t == 'pos':
             out.append(Tok('-' if t == 'neg' else '+'))
             inner = e[1]
+            signed = inner[0] in ('neg', 'pos') or (
+                inner[0] == 'num' and is_neg(inner[1]))
             if self.atom_like(inner):
+                self.expr(inner, out)
+            elif signed and self.chance(0.6):
+                # a run of signs needs no parentheses: - - x, - + x, - -3
                 self.expr(inner, out)
             else:
                 out.append(Tok('('))
@@ -424,7 +429,10 @@ def layout(toks, rng, nospace=0.5, abbreviate=0.5, comments=0.1):
             continue
         if rng.random() < comments:
             out.append(rng.choice([' # a comment\n', '\t#x "y" { [\n',
-                                   ' #\n', ' # end begin repeat\n']))
+                                   ' #\n', ' # end begin repeat\n',
+                                   # (form feed etc. do not end a comment)
+                                   ' # page\x0cbreak hue 7 "\n',
+                                   ' # a\x0bb\x1cc\x1dd\x1ee print 1\n']))
         else:
             out.append(rng.choice(SEPS))
     if rng.random() < 0.3:
